@@ -4,7 +4,7 @@ from sa import paths as P
 from . import common as K
 from . import boundsrules as BR
 
-CONFIGS_QUICK = ["A"]
+CONFIGS_QUICK = ["A", "E"]
 CONFIGS_THOROUGH = ["A", "B", "C", "D", "E"]
 
 EXPLANATION = (
@@ -120,6 +120,13 @@ def rule_b1(ck, prog):
         if len(wr) != 1 or C.call_args(wr[0])[1].strip_all_casts().get("path") != hdr or \
                 C.call_args(wr[0])[2].strip_all_casts().src.replace(" ", "") != "%s+2" % hl:
             probs.append("the header write is not (header, header_len + 2)")
+    # the header is unconditional: callers (the array producers, the one-shot block) write their payload right behind it and
+    # do not look at its result, so a path that returns without announcing leaves raw bytes without '#<n><len>' in front
+    S_ = K.summaries(prog)
+    pg_ = S_.pg(f)
+    wr_ = list(f.calls("writeData"))
+    if wr_ and pg_.exit in pg_.reachable([pg_.entry], blocked_edge=lambda e: e.kind == "elem" and (e.node in wr_ or e.node is r)):
+        probs.append("a path returns without writing the header / recording the announced length (callers emit the payload regardless)")
     if probs:
         ck.violated("C17-B1", st, K.loc(f, r), "; ".join(probs))
     else:
@@ -211,16 +218,47 @@ class Bits:
         self.v = v if v is not None else [None] * w
 
 
-def swap_eval(n, param, w):
+def swap_eval(n, param, w, env=None, depth=0):
+    """bit provenance of an expression over the parameter: list of 64 entries (input bit index or None).  Narrowing casts cut
+    the list, locals are looked up in `env` (provenance of their initialiser), calls of the narrower SCPI_SwapNN helpers are
+    applied as the byte reversal of their width (each of them is verified by this same rule)."""
+    env = env or {}
+    # casts: an unsigned cast to fewer bits drops the upper provenance
+    x = n
+    while x.k in ("ParenExpr",) and x.ch:
+        x = x.child(0)
+    if x.k in ("ImplicitCastExpr", "CStyleCastExpr") and x.ch and x.get("ck") in ("IntegralCast",) and x.get("bits") and x.get("bits") < 64:
+        inner = swap_eval(x.child(0), param, w, env, depth)
+        if isinstance(inner, list):
+            return inner[:x["bits"]] + [None] * (64 - x["bits"])
+        return inner
     s = n.strip_all_casts()
+    while s.k == "ParenExpr" and s.ch:
+        s = s.child(0).strip_all_casts()
     if s.get("path") == param:
         return list(range(w)) + [None] * (64 - w) if w < 64 else list(range(64))
+    if s.k == "DeclRefExpr" and s.get("path") in env:
+        return env[s["path"]]
     c = C.const_of(s)
     if c is not None and s.k != "DeclRefExpr":
         return ("const", c)
+    if s.k == "CallExpr" and (s.get("callee") or "").startswith("SCPI_Swap") and depth < 3:
+        try:
+            wc = int(s["callee"][len("SCPI_Swap"):])
+        except ValueError:
+            return None
+        a = swap_eval(C.call_args(s)[0], param, w, env, depth + 1)
+        if not isinstance(a, list) or wc >= w:
+            return None
+        a = a[:wc]
+        out = [None] * 64
+        for p_ in range(wc):
+            byte, bit = divmod(p_, 8)
+            out[(wc // 8 - 1 - byte) * 8 + bit] = a[p_]
+        return out
     if s.k == "BinaryOperator":
         op = s["op"]
-        a, b = swap_eval(s.child(0), param, w), swap_eval(s.child(1), param, w)
+        a, b = swap_eval(s.child(0), param, w, env, depth), swap_eval(s.child(1), param, w, env, depth)
         if a is None or b is None:
             return None
         if op == "&":
@@ -297,7 +335,15 @@ def rule_b3(ck, prog, S):
             continue
         st = K.site(f, "byte-reversal", 0)
         rets = [n for n in f.nodes.values() if n.k == "ReturnStmt" and n.ch]
-        res = swap_eval(rets[0].child(0), f.params[0]["name"], w) if len(rets) == 1 else None
+        env_ = {}
+        for dn in sorted((x for x in f.nodes.values() if x.k == "DeclStmt"), key=lambda x: (x.get("line", 0), x.get("col", 0))):
+            for dd in dn.get("decls", []):
+                if "init" in dd:
+                    v_ = swap_eval(f.nodes[dd["init"]], f.params[0]["name"], w, env_)
+                    if isinstance(v_, list):
+                        bits_ = dd["type"].get("bits") or 64
+                        env_[dd["name"]] = v_[:bits_] + [None] * (64 - bits_)
+        res = swap_eval(rets[0].child(0), f.params[0]["name"], w, env_) if len(rets) == 1 else None
         want = []
         for p in range(w):
             byte, bit = divmod(p, 8)
